@@ -32,7 +32,7 @@ def dispatch (line : String) : String :=
     else if cmd = "ops" then Ops.handle ws
     else if cmd = "crit" || cmd = "crit-raw" then Crit.IO.handle ws
     else if cmd = "runloop" then RunLoop.handle ws
-    else if cmd = "files" || cmd = "fcall" then Files.handle ws
+    else if cmd = "files" || cmd = "fcall" || cmd = "flink" then Files.handle ws
     else if cmd = "fbgamma" || cmd = "fbprob" || cmd = "fbstep" then FB.handle ws
     else if cmd = "p20" then Proto20.handle ws
     else if cmd = "mc" then MC.handle ws
